@@ -236,6 +236,8 @@ var collTypes = []*gt.T{
 	{K: gt.List, Elem: &gt.T{K: gt.List, Elem: gt.P(gt.Num)}},
 	{K: gt.Set, Elem: &gt.T{K: gt.Tuple, Elems: []*gt.T{gt.P(gt.Str), gt.P(gt.Num)}}},
 	{K: gt.Map, Elem: &gt.T{K: gt.Obj, Attrs: []gt.Attr{{Name: "id", T: gt.P(gt.Num)}}}},
+	{K: gt.Set, Elem: &gt.T{K: gt.Set, Elem: gt.P(gt.Bool)}}, {K: gt.Set, Elem: &gt.T{K: gt.List, Elem: gt.P(gt.Str)}},
+	{K: gt.Set, Elem: &gt.T{K: gt.Obj, Attrs: []gt.Attr{{Name: "a", T: gt.P(gt.Bool)}}}}, {K: gt.List, Elem: &gt.T{K: gt.Set, Elem: gt.P(gt.Num)}},
 }
 
 func c02Collections(c *Ctx, r *rng.R) {
